@@ -236,7 +236,7 @@ theorem foldHeadsRange_sound (ctx : Ctx g vh) : Sound g vh (bottomUp foldHeadsRa
 
 /-- **`optimize` preserves the denoted set** (for the visibility context fixed before rewriting)
 and mentions no new commits. -/
-theorem optimize_sound' (ctx : Ctx g vh) : Sound g vh optimize := by
+theorem optimize_sound_ctx (ctx : Ctx g vh) : Sound g vh optimize := by
   intro e hr
   unfold optimize
   obtain ⟨r1, d1⟩ := unfoldDifference_sound ctx e hr
